@@ -319,6 +319,9 @@ class RainbowDQN(RLAlgorithm):
             # Finds closest support element index value
             b = (t_z - self.v_min) / self.delta_z
 
+            # Rounding can push b slightly outside of the support indices
+            b = b.clamp(min=0, max=self.num_atoms - 1)
+
             # Find the neighbouring indices of b
             L = b.floor().long()
             u = b.ceil().long()
